@@ -39,6 +39,21 @@
 (* peer-sharing instance exists (refusing requests) when peer sharing was  *)
 (* not negotiated at a version that has the protocol.  The emitted         *)
 (* expectation is "any" exactly where the choices differ.                  *)
+(*                                                                         *)
+(* LOCAL OPTIONS THAT ARE NOT NEGOTIATION INPUTS.  A configuration also    *)
+(* carries what the application asked for locally without it ever going on *)
+(* the wire: `lka`, "this side sends keep-alives" (WithKeepAlive).  Half   *)
+(* (A) does not mention it, on purpose: what the negotiation enabled is a  *)
+(* function of the negotiation alone.  The only thing such an opt-in may   *)
+(* decide is whether the application's OWN initiator of that protocol runs *)
+(* (AppOptional: with lka off, the keep-alive initiator may stay unstarted *)
+(* - a third open choice of the machine, `kaOptIn`).  The instance, the    *)
+(* responder that answers the PEER's requests, every other protocol and    *)
+(* the muxer mode are the same with the option on and off                  *)
+(* (LocalOptInOnlyAffectsOwnInitiator), and the C17 invariants hold for    *)
+(* both values.  Design = "optin" is the defective reading ("keep-alives   *)
+(* are opt-in": no keep-alive instance at all unless lka), kept so that    *)
+(* TLC shows EnabledIsReachable is not vacuous in this dimension.          *)
 (***************************************************************************)
 EXTENDS Integers, FiniteSets, Sequences, SequencesExt, Json, TLC
 
@@ -47,7 +62,10 @@ CONSTANTS
     NtCVersions,   \* supported node-to-client versions (without the 0x8000 class bit)
     DMQVersions,   \* supported DMQ node-to-client versions (without the 0x1000 class bit)
     ExtraIds,      \* protocol numbers no connection of these kinds ever runs
-    Design         \* "fixed" | "legacy"
+    Design,        \* "fixed" | "legacy" | "optin"
+    LocalOptSpace  \* "all": every configuration with the local opt-in on and off
+                   \* "node-to-node": off only where the option means something (node-to-node);
+                   \*     node-to-client / DMQ rows carry lka = TRUE (set, and without effect)
 
 LeiosIds == {18, 19, 20}
 KnownIds == {2, 3, 4, 5, 6, 7, 8, 9, 10, 14, 15} \cup LeiosIds
@@ -64,13 +82,19 @@ VersionsOf(kind) == CASE kind = "ntn" -> NtNVersions
                       [] kind = "dmq" -> DMQVersions
 
 \* Configurations.  The peer's diffusion mode and peer-sharing flag only exist
-\* on the wire of node-to-node version data (peer sharing from v11).
+\* on the wire of node-to-node version data (peer sharing from v11).  lka is the
+\* local, never negotiated, "send keep-alives" option of the application.
 Configs ==
     { c \in [server : BOOLEAN, kind : {"ntn", "ntc", "dmq"}, lfd : BOOLEAN, pfd : BOOLEAN,
-             ver : NtNVersions \cup NtCVersions \cup DMQVersions, lps : BOOLEAN, pps : BOOLEAN] :
+             ver : NtNVersions \cup NtCVersions \cup DMQVersions, lps : BOOLEAN, pps : BOOLEAN,
+             lka : BOOLEAN] :
         /\ c.ver \in VersionsOf(c.kind)
         /\ c.kind # "ntn" => (~c.pfd /\ ~c.lps /\ ~c.pps)
-        /\ (c.kind = "ntn" /\ c.ver < 11) => ~c.pps }
+        /\ (c.kind = "ntn" /\ c.ver < 11) => ~c.pps
+        /\ (LocalOptSpace # "all" /\ c.kind # "ntn") => c.lka }
+
+ASSUME LocalOptSpace \in {"all", "node-to-node"}
+ASSUME Design \in {"fixed", "legacy", "optin"}
 
 Segs == [id : Ids, resp : BOOLEAN]
 
@@ -94,6 +118,15 @@ OpenIds(c) ==
       THEN LeiosIds \cup (IF c.ver >= 11 /\ ~NegPeerSharing(c) THEN {10} ELSE {})
       ELSE {}
 
+\* (protocol, role) pairs that are enabled but whose start is the local
+\* application's own choice: the initiator of keep-alive when the application
+\* did not ask to send keep-alives.  Never a responder: the peer's requests for
+\* an enabled protocol are answered whatever the local application sends itself.
+AppOptional(c) == IF c.kind = "ntn" /\ ~c.lka THEN {<<8, "init">>} ELSE {}
+
+\* what the negotiation obliges the connection to run
+Required(c) == ((Enabled(c) \X NegRoles(c)) \ AppOptional(c))
+
 \* protocols whose responder hands a well-formed first request to the application
 \* (peer sharing only when negotiated; never through a refusing instance)
 AppIds(c) == Enabled(c) \cup (IF c.kind = "ntn" THEN LeiosIds ELSE {})
@@ -109,9 +142,12 @@ Flags(c) == [ keepAlive      |-> c.kind = "ntn" /\ c.ver >= 7,
               localTxMonitor |-> c.kind = "ntc" /\ c.ver >= 12 ]
 
 Impls(c) ==
-    { i \in [leios : BOOLEAN, psRefusing : BOOLEAN] :
+    { i \in [leios : BOOLEAN, psRefusing : BOOLEAN, kaOptIn : BOOLEAN] :
         /\ i.leios => c.kind = "ntn"
-        /\ i.psRefusing => (c.kind = "ntn" /\ c.ver >= 11 /\ ~NegPeerSharing(c)) }
+        /\ i.psRefusing => (c.kind = "ntn" /\ c.ver >= 11 /\ ~NegPeerSharing(c))
+        \* the keep-alive initiator waits for the application's opt-in (only
+        \* distinguishable when the application did not opt in)
+        /\ i.kaOptIn => (c.kind = "ntn" /\ ~c.lka) }
 
 Setup(c, impl) ==
     LET f    == Flags(c)
@@ -119,7 +155,7 @@ Setup(c, impl) ==
         hsFD == c.kind = "ntn" /\ c.pfd /\ (Design = "legacy" \/ f.fullDuplex)
         both == c.lfd /\ hsFD
         cons == CASE c.kind = "ntn" ->
-                       {2, 3, 4} \cup (IF f.keepAlive THEN {8} ELSE {})
+                       {2, 3, 4} \cup (IF f.keepAlive /\ (Design = "optin" => c.lka) THEN {8} ELSE {})
                                  \cup (IF f.peerSharing /\ (NegPeerSharing(c) \/ impl.psRefusing) THEN {10} ELSE {})
                                  \cup (IF impl.leios THEN LeiosIds ELSE {})
                   [] c.kind = "ntc" ->
@@ -129,7 +165,9 @@ Setup(c, impl) ==
         ini  == both \/ ~c.server
         rsp  == both \/ c.server
     IN [ constructed |-> cons,
-         registered  |-> {k \in Keys : k[1] \in cons /\ ((k[2] = "init" /\ ini) \/ (k[2] = "resp" /\ rsp))},
+         registered  |-> {k \in Keys : /\ k[1] \in cons
+                                        /\ ((k[2] = "init" /\ ini) \/ (k[2] = "resp" /\ rsp))
+                                        /\ (impl.kaOptIn => k # <<8, "init">>)},
          mode        |-> IF Design = "legacy"
                            THEN (IF hsFD THEN "IR" ELSE IF c.server THEN "R" ELSE "I")
                            ELSE (IF both THEN "IR" ELSE IF c.server THEN "R" ELSE "I") ]
@@ -243,7 +281,7 @@ ResponderOnlyNeverDeliversResponse ==
 StartedIffEnabled ==
     /\ pc = "read" =>
          \A k \in Keys :
-            /\ (k[1] \in Enabled(c) /\ k[2] \in NegRoles(c)) => k \in st.registered
+            /\ k \in Required(c) => k \in st.registered
             /\ k \in st.registered => (k[2] \in NegRoles(c) /\ k[1] \in Enabled(c) \cup OpenIds(c))
     /\ delivered => (RoleFor(seg) \in NegRoles(c) /\ seg.id \in Enabled(c) \cup OpenIds(c))
     /\ app => (~seg.resp /\ "resp" \in NegRoles(c) /\ seg.id \in AppIds(c))
@@ -252,9 +290,27 @@ EnabledIsReachable ==
     /\ pc = "read" =>
          \A id \in Enabled(c) :
             /\ id \in st.constructed
-            /\ \A r \in NegRoles(c) : <<id, r>> \in st.registered
-    /\ (pc = "done" /\ seg.id \in Enabled(c) /\ RoleFor(seg) \in NegRoles(c)) =>
+            /\ \A r \in NegRoles(c) : <<id, r>> \in Required(c) => <<id, r>> \in st.registered
+    /\ (pc = "done" /\ <<seg.id, RoleFor(seg)>> \in Required(c)) =>
             (delivered /\ errs = {} /\ (~seg.resp => app))
+
+\* A local option that never went on the wire cannot change what the negotiation
+\* enabled: the same configuration with the option flipped has the same
+\* obligations except for the application's own optional initiator, and the
+\* machine constructs the same instances, sets the same muxer mode and
+\* registers the same pairs - again except for that initiator.  In particular
+\* the responder side is identical: the peer cannot tell the difference.
+Flip(cc) == [cc EXCEPT !.lka = ~cc.lka]
+FlipImpl(cc, im) == [im EXCEPT !.kaOptIn = FALSE]
+LocalOptInOnlyAffectsOwnInitiator ==
+    /\ Enabled(Flip(c)) = Enabled(c) /\ NegRoles(Flip(c)) = NegRoles(c)
+    /\ (Required(c) \ {<<8, "init">>}) = (Required(Flip(c)) \ {<<8, "init">>})
+    /\ AppOptional(c) \subseteq (Ids \X {"init"})
+    /\ pc = "read" =>
+         LET other == Setup(Flip(c), FlipImpl(c, impl))
+         IN  /\ st.constructed = other.constructed
+             /\ st.mode = other.mode
+             /\ (st.registered \ {<<8, "init">>}) = (other.registered \ {<<8, "init">>})
 
 -----------------------------------------------------------------------------
 (* emitted cases: one row per configuration                                  *)
@@ -276,14 +332,15 @@ SegRow(cc, sg, sets) ==
 Row(cc) ==
     LET sets == {Setup(cc, im) : im \in Impls(cc)}
     IN [ server  |-> cc.server, kind |-> cc.kind, lfd |-> cc.lfd, pfd |-> cc.pfd,
-         ver     |-> cc.ver, lps |-> cc.lps, pps |-> cc.pps,
+         ver     |-> cc.ver, lps |-> cc.lps, pps |-> cc.pps, lka |-> cc.lka,
+         optional |-> SetToSeq(AppOptional(cc)),
          roles   |-> SetToSeq(NegRoles(cc)),
          enabled |-> SetToSeq(Enabled(cc)),
          constructed |-> SetToSeq({ <<id, Tri({(id \in s.constructed) : s \in sets})>> : id \in KnownIds }),
          registered  |-> SetToSeq({ <<k[1], k[2], Tri({(k \in s.registered) : s \in sets})>> : k \in KnownIds \X Roles }),
          segs    |-> SetToSeq({ SegRow(cc, sg, sets) : sg \in Segs }) ]
 
-Emit == ndJsonSerialize(IF Design = "fixed" THEN "cases.ndjson" ELSE "cases_legacy.ndjson",
+Emit == ndJsonSerialize(IF Design = "fixed" THEN "cases.ndjson" ELSE "cases_" \o Design \o ".ndjson",
                         SetToSeq({Row(cc) : cc \in Configs}))
 ASSUME Emit
 =============================================================================
